@@ -97,6 +97,13 @@ func (p *Program) verifyFunc(name string, view string) *FuncResult {
 	}
 	if ct != nil {
 		env := &specEnv{f: f, st: st, old: st}
+		if len(ct.GhostParams) > 0 {
+			// the function's own ghost (witness) parameters are arbitrary values while it is verified
+			env.names = map[string]Val{}
+			for _, g := range ct.GhostParams {
+				env.names[g] = Val{T: e.fresh("ghostparam_"+g, sInt), Typ: mathInt}
+			}
+		}
 		var reqs []string
 		for _, rq := range ct.Requires {
 			t := f.specBool(rq.Expr, env)
